@@ -1058,15 +1058,14 @@ class LangServer:
                                 override_cache.append(var_def.FQSN)
                                 ref_match = True
 
-                        # Object is a Method and the linked object i.e. the
-                        # implementation
-                        # shares the same parent signature as the current variable
-                        # NOTE:: throws and AttributeError if the link_object or
-                        # parent are not present OR they are set to None
-                        # hence not having a FQSN
+                        # Object is a Method and the current name is its linked
+                        # object, i.e. the implementation of 'procedure :: name'
+                        # (not any other entity of that name in the same scope:
+                        # with 'procedure :: init => t_init' a module procedure
+                        # 'init' is unrelated)
                         elif (
                             def_obj.get_type(True) == METH_TYPE_ID
-                            and def_obj.link_obj.parent.FQSN == var_def.parent.FQSN
+                            and def_obj.link_obj is var_def
                         ):
                             ref_match = True
                             override_cache.append(var_def.FQSN)
